@@ -192,6 +192,11 @@ func runNames(out *vio.Out, c Case) {
 
 	var dec []Entry
 	failed := false
+	if panicked {
+		// Encode refused the table: nothing to decode
+		out.Emit(ev{"ev": "ndecode", "case": c.ID, "failed": false, "skipped": true, "dec": []ev{}})
+		return
+	}
 	func() {
 		defer func() {
 			if r := recover(); r != nil {
@@ -207,7 +212,7 @@ func runNames(out *vio.Out, c Case) {
 		dec = project(3, info2.Windows, dec)
 	}()
 	sortEntries(dec)
-	out.Emit(ev{"ev": "ndecode", "case": c.ID, "failed": failed, "dec": entriesJSON(dec)})
+	out.Emit(ev{"ev": "ndecode", "case": c.ID, "failed": failed, "skipped": false, "dec": entriesJSON(dec)})
 }
 
 // runRaw: bytes the library did not write (one record, platform 1 or 3) through Decode, and the
@@ -663,6 +668,44 @@ func genNames(s *sink, tlcCases string) {
 		{P: 3, T: pickLang(rng, 3, "w409"), N: 4, S: long3[:len(long3)/2]},
 		{P: 1, T: pickLang(rng, 1, "any"), N: 4, S: long1[:30000]},
 		{P: 1, T: pickLang(rng, 1, "any"), N: 5, S: runes("abc")}}}, "")
+	// (4c) the 16-bit field boundary.  One language per platform, name ids in storage order (the encoder
+	// stores the Macintosh strings before the Windows strings and the strings of one language by name id).
+	// Strings are random, so no two share storage.  {platform, storage bytes} per string:
+	type sz struct{ p, bytes int }
+	bound := [][]sz{
+		{{1, 30000}, {1, 35535}},                         // second string ends at 65535
+		{{1, 30000}, {1, 35536}},                         // ... ends at 65536: starts below, ends at 2^16
+		{{1, 30000}, {1, 35537}},                         // ... ends beyond
+		{{3, 40000}, {3, 30400}},                         // 20000 + 15200 UTF-16 units
+		{{1, 1}, {1, 65535}},                             // the longest string behind one byte
+		{{1, 65535}, {1, 1}},                             // one byte at the last offset the field can hold
+		{{1, 16000}, {1, 18000}, {1, 11535}, {3, 20000}}, // storage totals 65535, 65536, 65537
+		{{1, 16000}, {1, 18000}, {1, 11536}, {3, 20000}},
+		{{1, 16000}, {1, 18000}, {1, 11537}, {3, 20000}},
+		{{1, 65535}, {3, 65534}},                         // both fields at their maximum: ends at 131069
+		{{1, 40000}, {1, 40000}, {1, 10}},                // third string would start at 80000: refuse or reorder
+		{{1, 40000}, {1, 40000}, {1, 40000}},             // cannot be represented at all: refuse
+		{{3, 60000}, {3, 60000}, {1, 5}},
+	}
+	mtag, wtag := pickLang(rng, 1, "m0"), pickLang(rng, 3, "w409")
+	for _, b := range bound {
+		var e []Entry
+		for i, x := range b {
+			var s []int
+			if x.p == 1 {
+				for len(s) < x.bytes {
+					s = append(s, randCP(rng, "mac"))
+				}
+				e = append(e, Entry{P: 1, T: mtag, N: i + 1, S: s})
+			} else {
+				for len(s) < x.bytes/2 {
+					s = append(s, randCP(rng, "bmp"))
+				}
+				e = append(e, Entry{P: 3, T: wtag, N: i + 1, S: s})
+			}
+		}
+		s.add(Case{Kind: "names", Info: e}, "")
+	}
 	// (5) seeded random tables with many languages
 	n := 40
 	if vio.Thorough() {
